@@ -77,6 +77,8 @@ func runJobWorker(e *Engine, st *State, instr ssa.Instruction, fn *ssa.Function,
 	st.assume(fmt.Sprintf("(forall ((%s Int)) (=> (and (<= 0 %s) (< %s %s)) (select %s %s)))", qj, qj, qj, size, done, qj))
 	st.assume(eq(cnt, ite(sx(">", size, "0"), size, "0")))
 	st.trace = append(st.trace, site+": all jobs finished, RunJobWorker returns nil")
+	// vacuity guard: the invariants must allow the run to complete
+	e.emitCover(st, "cover#"+site+"/complete", "the job run can complete under the stated invariants")
 	k(st, &Val{T: "0", Ty: errT})
 	return true
 }
